@@ -161,6 +161,7 @@ def stat_cases(rng, seeds, tier):
         fams.append(("expo", [a]))
         fams.append(("gamma1", [a]))
         fams.append(("dExpo", [a]))
+        fams.append(("dTExpo", [a, rng.choice([0.5, 3.0, 10.0])]))      # lambda, truncation point
     pair_grid = list(itertools.product(grid, grid)) if big else [(0.1, 5.0), (0.5, 0.5), (1.0, 20.0), (2.0, 0.1), (5.0, 2.0), (20.0, 1.0)]
     for a, b in pair_grid:
         fams.append(("gauss", [rng.choice([-3.0, 0.0, 7.5]), b]))       # mean, variance
